@@ -18,6 +18,13 @@ def _alarm(sig, frm):
 def outcome(m, src, pollute_first):
     log = []
     if pollute_first:
+        # an earlier context with a *short* time limit that compiles the shared regex literals first:
+        # nothing of it (deadline callbacks, caches) may reach later contexts
+        q = m.Context(time_limit=0.05)
+        try:
+            q.eval("[/(a+)+b/, /(x|xx)+y/, /^(\\w+\\s?)+$/, /(a*)*b/, /(?:a|b)*c/, /(\\d+)+x/].map(function(r){ return r.test('ab'); })")
+        except Exception:
+            pass
         p = m.Context(time_limit=5)
         try:
             p.eval("Object.prototype.zzq = 1; Math.zzq = 2; Array.prototype.zzq = 3; var leak = 5; String.zzq = function(){ return 1; }; "
